@@ -350,7 +350,7 @@ extern int mpt_graph_get(const MPT_STRUCT(graph) *gr, MPT_STRUCT(property) *pr)
 			format[3] = type;
 		}
 		
-		return gr && memcmp(gr, &def_graph, sizeof(*gr)) ? 1 : 0;
+		return gr && memcmp(gr, &def_graph, MPT_offset(graph,lpos) + sizeof(gr->lpos)) ? 1 : 0;
 	}
 	/* find property by name */
 	else {
